@@ -5,6 +5,8 @@
 mod ctx;
 mod rng;
 mod c09;
+mod search;
+mod searchprops;
 #[allow(dead_code)]
 mod jsonproto;
 
@@ -56,6 +58,12 @@ fn main() {
     let mut ctx = Ctx::new(seed, tier, only, n);
     let rule = match prop.as_str() {
         "C09" => c09::run(&mut ctx),
+        "C01" => searchprops::run(&mut ctx, searchprops::Prop::C01),
+        "C02" => searchprops::run(&mut ctx, searchprops::Prop::C02),
+        "C03" => searchprops::run(&mut ctx, searchprops::Prop::C03),
+        "C04" => searchprops::run(&mut ctx, searchprops::Prop::C04),
+        "C05" => searchprops::run(&mut ctx, searchprops::Prop::C05),
+        "C10" => searchprops::run(&mut ctx, searchprops::Prop::C10),
         _ => {
             eprintln!("unknown property {}", prop);
             std::process::exit(2);
